@@ -361,3 +361,9 @@ def _kinds(ms: tuple) -> str:
 
 
 execute = std_execute(build, oracle)
+
+
+# wave h documentation (what was added to the enumeration; see DESIGN.md 11.0)
+_WAVE_H = '+ h2two: two streams of one HTTP/2 connection in progress at the trigger, released independently inside / outside the grace period'
+RULE = RULE + " " + _WAVE_H
+BOUNDS_DOC = {k: v + " " + _WAVE_H for k, v in BOUNDS_DOC.items()}
